@@ -1257,6 +1257,14 @@ func (ev *Eval) callExpr(c *ECall) (EVal, error) {
 		if err != nil {
 			return EVal{}, err
 		}
+		if len(c.Args) == 2 {
+			// payload(x, T): the pointer carried by x, viewed as *T (meaningful when x's dynamic type is *T)
+			t, err := ev.resolveTypeName(c.Args[1])
+			if err != nil {
+				return EVal{}, err
+			}
+			return EVal{T: types.NewPointer(t), Terms: []string{"(i_pl " + ev.rv(a)[0] + ")"}}, nil
+		}
 		return EVal{T: types.Typ[types.UnsafePointer], Terms: []string{"(i_pl " + ev.rv(a)[0] + ")"}}, nil
 	case "isnil":
 		a, err := arg(0)
